@@ -1,6 +1,716 @@
 import OnetVerif.Model.C14
-/-! Property C14 — property theorems, negation witnesses, `_partial` variants and non-vacuity
-examples only (helper lemmas that need Mathlib go to OnetVerif/Proofs/). -/
+/-! Property C14 — every client request gets the reply computed for exactly that request.
+Property theorems, negation witnesses, non-vacuity examples and the lemmas they need. -/
 namespace C14
+
+variable {σ M R O B : Type}
+
+/-! ### vocabulary of the statements -/
+
+/-- the answer owed to one websocket message on a connection opened on `path`, when the service
+is in state `s` -/
+def wsRespond (svc : WsSvc σ M R) (s : σ) (path : String) (b : Bytes) : WsOut :=
+  (processClientRequest svc s path b).2
+
+/-- the answer owed to one REST request: computed from a fresh object and that request alone -/
+def restRespond (h : RestH σ O B R) (s : σ) (q : RestReq B) : RestOut R :=
+  (restHandle h .perRequest h.zero s q).2.2
+
+/-- the handlers' replies do not depend on the service's own state (true of the echo/transform
+service of the correspondence run); the general theorems do not need it -/
+def WsSvc.Pure (svc : WsSvc σ M R) : Prop := ∀ s s' p m, (svc.call s p m).2 = (svc.call s' p m).2
+def RestH.Pure (h : RestH σ O B R) : Prop := ∀ s s' o, (h.call s o).2 = (h.call s' o).2
+
+/-- what a connection shows for a list of owed answers: everything up to and including the first
+close -/
+def upToClose : List WsOut → List WsOut
+  | [] => []
+  | o :: l => if o.isReply then o :: upToClose l else [o]
+
+/-- element-wise relation between two lists of the same length -/
+def Paired {α β : Type} (P : α → β → Prop) : List α → List β → Prop
+  | [], [] => True
+  | a :: as, b :: bs => P a b ∧ Paired P as bs
+  | _, _ => False
+
+theorem paired_snoc {α β : Type} {P : α → β → Prop} {l₁ : List α} {l₂ : List β} {a : α} {b : β}
+    (h : Paired P l₁ l₂) (hab : P a b) : Paired P (l₁ ++ [a]) (l₂ ++ [b]) := by
+  induction l₁ generalizing l₂ with
+  | nil => cases l₂ with
+    | nil => simp [Paired, hab]
+    | cons _ _ => simp [Paired] at h
+  | cons x xs ih => cases l₂ with
+    | nil => simp [Paired] at h
+    | cons y ys => simp only [Paired, List.cons_append] at h ⊢; exact ⟨h.1, ih h.2⟩
+
+theorem paired_map {α β : Type} {P : α → β → Prop} {f : α → β} {l₁ : List α} {l₂ : List β}
+    (h : Paired P l₁ l₂) (hf : ∀ a b, P a b → b = f a) : l₂ = l₁.map f := by
+  induction l₁ generalizing l₂ with
+  | nil => cases l₂ with
+    | nil => rfl
+    | cons _ _ => simp [Paired] at h
+  | cons x xs ih => cases l₂ with
+    | nil => simp [Paired] at h
+    | cons y ys => simp only [Paired] at h; simp [hf x y h.1, ih h.2]
+
+/-! ### websocket -/
+
+theorem wsRespond_pure (svc : WsSvc σ M R) (hp : svc.Pure) (s s' : σ) (path : String) (b : Bytes) :
+    wsRespond svc s path b = wsRespond svc s' path b := by
+  unfold wsRespond processClientRequest
+  split
+  · rfl
+  · split
+    · rfl
+    · rename_i m _
+      simp only [hp s s' path m]
+      split <;> try rfl
+      split <;> rfl
+
+/-- **the i-th answer on a connection is a function of the i-th message alone** (state-independent
+handlers): whatever the service state and whatever was sent before, the connection shows exactly
+the answers owed to its messages, one per message, in order, up to the first error. -/
+theorem c14_ws_reply_function (svc : WsSvc σ M R) (hp : svc.Pure) (path : String) (s s₀ : σ)
+    (msgs : List Bytes) :
+    (wsConn svc path s msgs).2 = upToClose (msgs.map (wsRespond svc s₀ path)) := by
+  induction msgs generalizing s with
+  | nil => simp [wsConn, upToClose]
+  | cons b bs ih =>
+    have e : (processClientRequest svc s path b).2 = wsRespond svc s₀ path b := wsRespond_pure svc hp s s₀ path b
+    simp only [wsConn, List.map_cons, upToClose, e]
+    split
+    · simp [ih]
+    · rfl
+
+/-- the same for handlers with a state of their own: the i-th answer is the answer owed to the
+i-th message in *some* service state — nothing of any other message enters it. -/
+theorem c14_ws_reply_of_own_request (svc : WsSvc σ M R) (path : String) (s : σ) (msgs : List Bytes) :
+    ∀ (i : Nat) o, (wsConn svc path s msgs).2[i]? = some o →
+      ∃ b sᵢ, msgs[i]? = some b ∧ o = wsRespond svc sᵢ path b := by
+  induction msgs generalizing s with
+  | nil => intro i o h; simp [wsConn] at h
+  | cons b bs ih =>
+    intro i o h
+    simp only [wsConn] at h
+    split at h
+    · cases i with
+      | zero => simp at h; exact ⟨b, s, by simp, by simp [wsRespond, h]⟩
+      | succ j =>
+        simp only [List.getElem?_cons_succ] at h
+        obtain ⟨b', s', hb, ho⟩ := ih _ j o h
+        exact ⟨b', s', by simpa using hb, ho⟩
+    · cases i with
+      | zero => simp at h; exact ⟨b, s, by simp, by simp [wsRespond, h]⟩
+      | succ j => simp at h
+
+/-- one answer per message, and only the last one can be a close -/
+theorem c14_ws_one_answer_per_message (svc : WsSvc σ M R) (path : String) (s : σ) (msgs : List Bytes) :
+    (wsConn svc path s msgs).2.length ≤ msgs.length ∧
+    (∀ (i : Nat) o, (wsConn svc path s msgs).2[i]? = some o → i + 1 < (wsConn svc path s msgs).2.length →
+      o.isReply = true) := by
+  induction msgs generalizing s with
+  | nil => simp [wsConn]
+  | cons b bs ih =>
+    simp only [wsConn]
+    split
+    · rename_i hr
+      refine ⟨by simpa using (ih _).1, ?_⟩
+      intro i o h hlt
+      cases i with
+      | zero => simp at h; rw [← h]; exact hr
+      | succ j =>
+        simp only [List.getElem?_cons_succ] at h
+        exact (ih _).2 j o h (by simpa using hlt)
+    · refine ⟨by simp, ?_⟩
+      intro i o _ hlt
+      simp at hlt
+
+/-! ### REST -/
+
+theorem rest_perRequest_slot (h : RestH σ O B R) (slot : O) (s : σ) (q : RestReq B) :
+    (restHandle h .perRequest slot s q).1 = slot := by
+  unfold restHandle
+  split
+  · rfl
+  · simp only []
+    split <;> rfl
+
+theorem rest_perRequest_out (h : RestH σ O B R) (slot : O) (s : σ) (q : RestReq B) :
+    (restHandle h .perRequest slot s q).2.2 = restRespond h s q := by
+  unfold restRespond restHandle
+  split
+  · rfl
+  · simp only []
+    split <;> rfl
+
+theorem rest_perRequest_state (h : RestH σ O B R) (slot slot' : O) (s : σ) (q : RestReq B) :
+    (restHandle h .perRequest slot s q).2.1 = (restHandle h .perRequest slot' s q).2.1 := by
+  unfold restHandle
+  split
+  · rfl
+  · simp only []
+    split <;> rfl
+
+theorem restRespond_pure (h : RestH σ O B R) (hp : h.Pure) (s s' : σ) (q : RestReq B) :
+    restRespond h s q = restRespond h s' q := by
+  unfold restRespond restHandle
+  split
+  · rfl
+  · simp only []
+    split
+    · rfl
+    · simp only [restCall, hp s s']
+      split <;> rfl
+
+/-- **the REST reply to a request does not depend on earlier requests** (state-independent
+handlers, full strength): a sequence of requests to a handler, whatever the registration-time
+object and the service state, is answered request by request with the answer owed to that request
+alone. -/
+theorem c14_rest_independent (h : RestH σ O B R) (hp : h.Pure) (slot : O) (s s₀ : σ)
+    (qs : List (RestReq B)) :
+    restSeq h .perRequest slot s qs = qs.map (restRespond h s₀) := by
+  induction qs generalizing slot s with
+  | nil => rfl
+  | cons q qs ih =>
+    simp only [restSeq, List.map_cons, ih, rest_perRequest_out, restRespond_pure h hp s s₀]
+
+/-- the same for handlers with a state of their own: the i-th reply is the one owed to the i-th
+request in some service state, and the registration-time object never changes -/
+theorem c14_rest_reply_of_own_request (h : RestH σ O B R) (slot : O) (s : σ) (qs : List (RestReq B)) :
+    ∀ (i : Nat) o, (restSeq h .perRequest slot s qs)[i]? = some o →
+      ∃ q sᵢ, qs[i]? = some q ∧ o = restRespond h sᵢ q := by
+  induction qs generalizing slot s with
+  | nil => intro i o h; simp [restSeq] at h
+  | cons q qs ih =>
+    intro i o h
+    simp only [restSeq] at h
+    cases i with
+    | zero =>
+      simp at h
+      exact ⟨q, s, by simp, by rw [← h, rest_perRequest_out]⟩
+    | succ j =>
+      simp only [List.getElem?_cons_succ] at h
+      obtain ⟨q', s', hq, ho⟩ := ih _ _ j o h
+      exact ⟨q', s', by simpa using hq, ho⟩
+
+/-! the code before the fix (`Alloc.shared`): the statement is false — witness of the probe -/
+
+/-- POST body with the given items, `Content-Type: application/json` -/
+def post (items : List Item) : RestReq Body := { method := .POST, jsonCT := true, tail := "", body := .obj items }
+
+/-- **with one argument object per handler the reply depends on the previous request**: after
+`{"S":"42"}`, the body `{}` is answered as if it carried `S = "42"`. -/
+theorem c14_rest_shared_object_fails :
+    restSeq (concreteRest 0) .shared {} 0 [post [.setS [52, 50]], post []]
+      ≠ [post [.setS [52, 50]], post []].map (restRespond (concreteRest 0) 0) := by
+  decide
+
+/-- the same two requests under the per-request allocation: independent (instance of the theorem,
+evaluated) -/
+example :
+    restSeq (concreteRest 0) .perRequest {} 0 [post [.setS [52, 50]], post []]
+      = [post [.setS [52, 50]], post []].map (restRespond (concreteRest 0) 0) := by
+  decide
+
+/-! ### errors and panics of a handler -/
+
+/-- **a websocket handler error or panic is reported to that client**: the message is answered by
+a close with the reason (never by a reply, never by nothing), and the only state that moves is what
+the handler itself did to the service state. -/
+theorem c14_error_reported_ws (svc : WsSvc σ M R) (s : σ) (path : String) (buf : Bytes) (m : M)
+    (hreg : svc.registered path = true) (hdec : svc.decode path buf = .ok m)
+    (hbad : ∀ r, (svc.call s path m).2 ≠ .ret r) :
+    ∃ w v, processClientRequest svc s path buf = ((svc.call s path m).1, .close w v) ∧
+      (w = .handler ∨ w = .panic) := by
+  unfold processClientRequest
+  simp only [hreg, hdec, Bool.not_true, Bool.false_eq_true, if_false]
+  cases hc : (svc.call s path m).2 with
+  | ret r => exact absurd hc (hbad r)
+  | fail f => exact ⟨.handler, f, by simp [callBarrier], Or.inl rfl⟩
+  | panics f => exact ⟨.panic, f, by simp [callBarrier], Or.inr rfl⟩
+
+/-- **a REST handler error or panic is reported to that client** with status 400, leaves the
+registration-time object alone and moves only what the handler did to the service state. -/
+theorem c14_error_reported_rest (h : RestH σ O B R) (slot : O) (s : σ) (q : RestReq B) (obj : O)
+    (hm : q.method = h.method) (hdec : restDecode h h.zero q = (obj, none))
+    (hbad : ∀ r, (h.call s obj).2 ≠ .ret r) :
+    ∃ e, restHandle h .perRequest slot s q = (slot, (h.call s obj).1, .err e) ∧
+      (e = .handler ∨ e = .panic) ∧ e.status = 400 := by
+  unfold restHandle
+  simp only [hm, ne_eq, not_true_eq_false, if_false, hdec, restCall]
+  cases hc : (h.call s obj).2 with
+  | ret r => exact absurd hc (hbad r)
+  | fail f => exact ⟨.handler, by simp [callBarrier], Or.inl rfl, rfl⟩
+  | panics f => exact ⟨.panic, by simp [callBarrier], Or.inr rfl, rfl⟩
+
+/-! ### the server under concurrent clients -/
+
+/-- what the answers recorded for a websocket connection must be: answer `i` is owed to message `i` -/
+def WsThread.Ok (svc : WsSvc σ M R) (t : WsThread) : Prop :=
+  Paired (fun b o => ∃ s, o = wsRespond svc s t.path b) t.done t.outs
+
+/-- the same for an HTTP connection; and a request that is decoded but not yet called is held in
+an object computed from a fresh one and that request alone -/
+def HttpThread.Ok (cfg : Cfg σ M R O B) (t : HttpThread O B R) : Prop :=
+  Paired (fun kq o => ∃ s, o = restRespond (cfg.rest kq.1) s kq.2) t.done t.outs ∧
+  ∀ o, t.decoded = some o → ∃ k q qs, t.todo = (k, q) :: qs ∧ q.method = (cfg.rest k).method ∧
+    restDecode (cfg.rest k) (cfg.rest k).zero q = (o, none)
+
+def Sys.Ok (cfg : Cfg σ M R O B) (y : Sys σ O B R) : Prop :=
+  (∀ t ∈ y.ws, t.Ok cfg.ws) ∧ (∀ t ∈ y.http, t.Ok cfg)
+
+theorem wsStep_ok (svc : WsSvc σ M R) (s s' : σ) (t t' : WsThread) (h : wsStep svc s t = some (s', t'))
+    (ht : t.Ok svc) : t'.Ok svc ∧ t'.path = t.path ∧ t'.done ++ t'.todo = t.done ++ t.todo := by
+  unfold wsStep at h
+  split at h
+  · simp at h
+  · split at h
+    · simp at h
+    · rename_i b bs hb
+      simp only [Option.some.injEq, Prod.mk.injEq] at h
+      obtain ⟨_, rfl⟩ := h
+      refine ⟨?_, rfl, by simp [hb]⟩
+      exact paired_snoc ht ⟨s, rfl⟩
+
+theorem httpStep_ok (cfg : Cfg σ M R O B) (hal : cfg.alloc = .perRequest) (s s' : σ) (sl sl' : Nat → O)
+    (t t' : HttpThread O B R) (h : httpStep cfg s sl t = some (s', sl', t')) (ht : t.Ok cfg) :
+    t'.Ok cfg ∧ sl' = sl ∧ t'.done ++ t'.todo = t.done ++ t.todo := by
+  cases hq : t.todo with
+  | nil => simp [httpStep, hq] at h
+  | cons kq qs =>
+    obtain ⟨k, q⟩ := kq
+    cases hd : t.decoded with
+    | none =>
+      by_cases hm : q.method = (cfg.rest k).method
+      · cases he : (restDecode (cfg.rest k) (cfg.rest k).zero q).2 with
+        | some e =>
+          simp only [httpStep, hq, hd, hal, hm, he, ne_eq, not_true_eq_false, if_false,
+            Option.some.injEq, Prod.mk.injEq] at h
+          obtain ⟨_, rfl, rfl⟩ := h
+          refine ⟨⟨?_, ?_⟩, rfl, by simp⟩
+          · refine paired_snoc ht.1 ⟨s, ?_⟩
+            simp [restRespond, restHandle, hm, he]
+          · intro o ho; simp at ho
+        | none =>
+          simp only [httpStep, hq, hd, hal, hm, he, ne_eq, not_true_eq_false, if_false,
+            Option.some.injEq, Prod.mk.injEq] at h
+          obtain ⟨_, rfl, rfl⟩ := h
+          refine ⟨⟨ht.1, ?_⟩, rfl, by simp⟩
+          intro o ho
+          simp only [Option.some.injEq] at ho
+          subst ho
+          exact ⟨k, q, qs, rfl, hm, Prod.ext rfl he⟩
+      · simp only [httpStep, hq, hd, hm, ne_eq, not_false_eq_true, if_true,
+          Option.some.injEq, Prod.mk.injEq] at h
+        obtain ⟨_, rfl, rfl⟩ := h
+        refine ⟨⟨?_, ?_⟩, rfl, by simp⟩
+        · refine paired_snoc ht.1 ⟨s, ?_⟩
+          simp [restRespond, restHandle, hm]
+        · intro o ho; simp at ho
+    | some o =>
+      simp only [httpStep, hq, hd, hal, Option.some.injEq, Prod.mk.injEq] at h
+      obtain ⟨_, rfl, rfl⟩ := h
+      obtain ⟨k', q', qs', hq', hm', hdec⟩ := ht.2 o hd
+      rw [hq] at hq'
+      simp only [List.cons.injEq, Prod.mk.injEq] at hq'
+      obtain ⟨⟨rfl, rfl⟩, rfl⟩ := hq'
+      refine ⟨⟨?_, ?_⟩, rfl, by simp⟩
+      · refine paired_snoc ht.1 ⟨s, ?_⟩
+        simp [restRespond, restHandle, hm', hdec]
+      · intro o' ho'; simp at ho'
+
+theorem step_ok (cfg : Cfg σ M R O B) (hal : cfg.alloc = .perRequest) (y y' : Sys σ O B R) (a : Act)
+    (h : step cfg y a = some y') (hy : y.Ok cfg) : y'.Ok cfg := by
+  cases a with
+  | ws i =>
+    simp only [step] at h
+    split at h
+    · simp at h
+    · rename_i t hi
+      split at h
+      · simp at h
+      · rename_i s' t' hs
+        simp only [Option.some.injEq] at h
+        subst h
+        have ht : t ∈ y.ws := List.mem_of_getElem? hi
+        refine ⟨?_, hy.2⟩
+        intro u hu
+        rcases List.mem_or_eq_of_mem_set hu with hu | rfl
+        · exact hy.1 u hu
+        · exact (wsStep_ok cfg.ws _ _ _ _ hs (hy.1 t ht)).1
+  | http i =>
+    simp only [step] at h
+    split at h
+    · simp at h
+    · rename_i t hi
+      split at h
+      · simp at h
+      · rename_i s' sl' t' hs
+        simp only [Option.some.injEq] at h
+        subst h
+        have ht : t ∈ y.http := List.mem_of_getElem? hi
+        refine ⟨hy.1, ?_⟩
+        intro u hu
+        rcases List.mem_or_eq_of_mem_set hu with hu | rfl
+        · exact hy.2 u hu
+        · exact (httpStep_ok cfg hal _ _ _ _ _ _ hs (hy.2 t ht)).1
+
+/-- **any number of connections, any interleaving**: under the per-request allocation, in every
+state reachable from a state where the recorded answers are right (in particular from the start,
+where nothing is recorded), every answer recorded for every websocket and HTTP connection is the
+answer owed to exactly the request at the same position of that connection — whatever the other
+connections sent and whenever their goroutines ran. -/
+theorem c14_concurrent_replies (cfg : Cfg σ M R O B) (hal : cfg.alloc = .perRequest)
+    (y : Sys σ O B R) (hy : y.Ok cfg) (sched : List Act) : (run cfg y sched).Ok cfg := by
+  induction sched generalizing y with
+  | nil => exact hy
+  | cons a as ih =>
+    simp only [run]
+    split
+    · rename_i y' hs; exact ih y' (step_ok cfg hal y y' a hs hy)
+    · exact ih y hy
+
+/-- a system in which no connection has been served yet -/
+def Sys.Fresh (y : Sys σ O B R) : Prop :=
+  (∀ t ∈ y.ws, t.done = [] ∧ t.outs = []) ∧ (∀ t ∈ y.http, t.done = [] ∧ t.outs = [] ∧ t.decoded = none)
+
+theorem fresh_ok (cfg : Cfg σ M R O B) (y : Sys σ O B R) (hf : y.Fresh) : y.Ok cfg := by
+  refine ⟨fun t ht => ?_, fun t ht => ⟨?_, ?_⟩⟩
+  · simp [WsThread.Ok, (hf.1 t ht).1, (hf.1 t ht).2, Paired]
+  · simp [(hf.2 t ht).1, (hf.2 t ht).2.1, Paired]
+  · intro o ho; simp [(hf.2 t ht).2.2] at ho
+
+/-- with state-independent handlers the recorded answers of every connection are *the function*
+`request ↦ answer` mapped over the requests served so far — for every schedule -/
+theorem c14_concurrent_function (cfg : Cfg σ M R O B) (hal : cfg.alloc = .perRequest)
+    (hpw : cfg.ws.Pure) (hpr : ∀ k, (cfg.rest k).Pure) (s₀ : σ)
+    (y : Sys σ O B R) (hf : y.Fresh) (sched : List Act) :
+    (∀ t ∈ (run cfg y sched).ws, t.outs = t.done.map (wsRespond cfg.ws s₀ t.path)) ∧
+    (∀ t ∈ (run cfg y sched).http, t.outs = t.done.map (fun kq => restRespond (cfg.rest kq.1) s₀ kq.2)) := by
+  have h := c14_concurrent_replies cfg hal y (fresh_ok cfg y hf) sched
+  refine ⟨fun t ht => ?_, fun t ht => ?_⟩
+  · refine paired_map (h.1 t ht) ?_
+    rintro b o ⟨s, rfl⟩
+    exact wsRespond_pure cfg.ws hpw s s₀ t.path b
+  · refine paired_map (h.2 t ht).1 ?_
+    rintro kq o ⟨s, rfl⟩
+    exact restRespond_pure (cfg.rest kq.1) (hpr kq.1) s s₀ kq.2
+
+theorem wsStep_ok' (svc : WsSvc σ M R) (s s' : σ) (t t' : WsThread) (h : wsStep svc s t = some (s', t')) :
+    t'.path = t.path ∧ t'.done ++ t'.todo = t.done ++ t.todo := by
+  unfold wsStep at h
+  split at h
+  · simp at h
+  · split at h
+    · simp at h
+    · rename_i b bs hb
+      simp only [Option.some.injEq, Prod.mk.injEq] at h
+      obtain ⟨_, rfl⟩ := h
+      exact ⟨rfl, by simp [hb]⟩
+
+theorem httpStep_slots (cfg : Cfg σ M R O B) (hal : cfg.alloc = .perRequest) (s s' : σ) (sl sl' : Nat → O)
+    (t t' : HttpThread O B R) (h : httpStep cfg s sl t = some (s', sl', t')) : sl' = sl := by
+  cases hq : t.todo with
+  | nil => simp [httpStep, hq] at h
+  | cons kq qs =>
+    obtain ⟨k, q⟩ := kq
+    cases hd : t.decoded with
+    | none =>
+      by_cases hm : q.method = (cfg.rest k).method
+      · cases he : (restDecode (cfg.rest k) (cfg.rest k).zero q).2 <;>
+        · simp only [httpStep, hq, hd, hal, hm, he, ne_eq, not_true_eq_false, if_false,
+            Option.some.injEq, Prod.mk.injEq] at h
+          exact h.2.1.symm
+      · simp only [httpStep, hq, hd, hm, ne_eq, not_false_eq_true, if_true,
+          Option.some.injEq, Prod.mk.injEq] at h
+        exact h.2.1.symm
+    | some o =>
+      simp only [httpStep, hq, hd, hal, Option.some.injEq, Prod.mk.injEq] at h
+      exact h.2.1.symm
+
+/-- **whatever a request does — handler errors and panics included — a step changes only its own
+connection**: the other connections, and the REST argument objects, are exactly as before; nothing
+is consumed or answered on behalf of another connection. (The service state moves only through the
+handler: `wsStep`/`httpStep`.) -/
+theorem c14_error_contained (cfg : Cfg σ M R O B) (hal : cfg.alloc = .perRequest)
+    (y y' : Sys σ O B R) (a : Act) (h : step cfg y a = some y') :
+    y'.slots = y.slots ∧
+    (match a with
+     | .ws i => y'.http = y.http ∧ ∀ j, j ≠ i → y'.ws[j]? = y.ws[j]?
+     | .http i => y'.ws = y.ws ∧ ∀ j, j ≠ i → y'.http[j]? = y.http[j]?) ∧
+    (∀ i : Nat, (y'.ws[i]?).map (fun (t : WsThread) => (t.path, t.done ++ t.todo)) = (y.ws[i]?).map (fun (t : WsThread) => (t.path, t.done ++ t.todo))) := by
+  cases a with
+  | ws i =>
+    simp only [step] at h
+    split at h
+    · simp at h
+    · rename_i t hi
+      split at h
+      · simp at h
+      · rename_i s' t' hs
+        simp only [Option.some.injEq] at h
+        subst h
+        refine ⟨rfl, ⟨rfl, fun j hj => by simp [List.getElem?_set_ne (Ne.symm hj)]⟩, ?_⟩
+        intro j
+        by_cases hj : i = j
+        · subst hj
+          have hlt : i < y.ws.length := (List.getElem?_eq_some_iff.mp hi).1
+          have := wsStep_ok' cfg.ws _ _ _ _ hs
+          simp [List.getElem?_set_self hlt, hi, this.1, this.2]
+        · simp [List.getElem?_set_ne hj]
+  | http i =>
+    simp only [step] at h
+    split at h
+    · simp at h
+    · rename_i t hi
+      split at h
+      · simp at h
+      · rename_i s' sl' t' hs
+        simp only [Option.some.injEq] at h
+        subst h
+        refine ⟨httpStep_slots cfg hal _ _ _ _ _ _ hs, ⟨rfl, fun j hj => by simp [List.getElem?_set_ne (Ne.symm hj)]⟩, fun j => rfl⟩
+
+/-- the allocation before the fix, two concurrent requests to one handler on two connections:
+request 0 carries `S = "42"`, request 1 is `{}`; schedule: 1 decodes, 0 decodes, 1 calls — the
+reply to `{}` is the one owed to the *other* connection's request. -/
+theorem c14_concurrent_shared_object_fails :
+    ∃ sched : List Act,
+      ((run (concreteCfg .shared)
+          { svc := 0, slots := fun _ => {}, ws := [],
+            http := [{ todo := [(0, post [.setS [52, 50]])] }, { todo := [(0, post [])] }] } sched).http.map (·.outs))
+        ≠ [[restRespond (concreteRest 0) 0 (post [.setS [52, 50]])], [restRespond (concreteRest 0) 0 (post [])]] :=
+  ⟨[.http 1, .http 0, .http 1, .http 0], by decide⟩
+
+/-! ### the client: one request in flight per connection -/
+
+def Pc.holding : Pc → Prop
+  | .locked => True
+  | .written => True
+  | _ => False
+
+/-- invariant of `Client.Send` with the per-destination lock: finished callers hold the reply to
+their own request; at most one caller is between `Lock` and `Unlock`, and the pipes hold nothing but
+that caller's request or its reply -/
+def Cl.Inv (f : Bytes → Bytes) (c : Cl) : Prop :=
+  (∀ (i : Nat) q r, c.callers[i]? = some (q, .finished r) → r = f q) ∧
+  ∃ h : Option Nat,
+    (∀ (j : Nat) q pc, c.callers[j]? = some (q, pc) → pc.holding → h = some j) ∧
+    match h with
+    | none => c.lock = false ∧ c.up = [] ∧ c.down = []
+    | some i => c.lock = true ∧ ∃ q,
+        (c.callers[i]? = some (q, .locked) ∧ c.up = [] ∧ c.down = []) ∨
+        (c.callers[i]? = some (q, .written) ∧ ((c.up = [q] ∧ c.down = []) ∨ (c.up = [] ∧ c.down = [f q])))
+
+theorem getElem?_set_eq' {α : Type} (l : List α) (i j : Nat) (a b : α) (h : (l.set i a)[j]? = some b) :
+    (i = j ∧ b = a) ∨ (i ≠ j ∧ l[j]? = some b) := by
+  by_cases hij : i = j
+  · subst hij
+    by_cases hl : i < l.length
+    · rw [List.getElem?_set_self hl] at h; exact Or.inl ⟨rfl, by simpa using h.symm⟩
+    · rw [List.set_eq_of_length_le (by omega)] at h
+      rw [List.getElem?_eq_none (by omega)] at h; simp at h
+  · rw [List.getElem?_set_ne hij] at h; exact Or.inr ⟨hij, h⟩
+
+theorem clStep_inv (f : Bytes → Bytes) (c c' : Cl) (a : ClAct) (h : clStep true f c a = some c')
+    (hi : c.Inv f) : c'.Inv f := by
+  obtain ⟨hfin, hd, hone, hpipe⟩ := hi
+  cases a with
+  | server =>
+    simp only [clStep] at h
+    split at h
+    · simp at h
+    · rename_i q qs hup
+      simp only [Option.some.injEq] at h
+      subst h
+      refine ⟨hfin, hd, hone, ?_⟩
+      cases hd with
+      | none => simp [hup] at hpipe
+      | some i =>
+        obtain ⟨hl, q', hq'⟩ := hpipe
+        refine ⟨hl, q', ?_⟩
+        rcases hq' with ⟨_, hu, _⟩ | ⟨hc, ⟨hu, hdn⟩ | ⟨hu, _⟩⟩
+        · simp [hup] at hu
+        · right
+          rw [hup] at hu
+          simp only [List.cons.injEq] at hu
+          obtain ⟨rfl, rfl⟩ := hu
+          exact ⟨hc, Or.inr ⟨rfl, by simp [hdn]⟩⟩
+        · simp [hup] at hu
+  | caller i =>
+    simp only [clStep] at h
+    split at h
+    · simp at h
+    · -- start: take the lock
+      rename_i q hc
+      split at h
+      · simp at h
+      · rename_i hlk
+        simp only [Option.some.injEq] at h
+        subst h
+        have hfree : c.lock = false := by simpa using hlk
+        cases hd with
+        | some k => simp [hfree] at hpipe
+        | none =>
+          have hlt : i < c.callers.length := (List.getElem?_eq_some_iff.mp hc).1
+          refine ⟨?_, some i, ?_, ?_⟩
+          · intro j q' r hj
+            rcases getElem?_set_eq' _ _ _ _ _ hj with ⟨_, he⟩ | ⟨_, he⟩
+            · simp at he
+            · exact hfin j q' r he
+          · intro j q' pc hj hh
+            rcases getElem?_set_eq' _ _ _ _ _ hj with ⟨rfl, _⟩ | ⟨_, he⟩
+            · rfl
+            · exact absurd (hone j q' pc he hh) (by simp)
+          · exact ⟨rfl, q, Or.inl ⟨by simp [List.getElem?_set_self hlt], hpipe.2.1, hpipe.2.2⟩⟩
+    · -- locked: write the request
+      rename_i q hc
+      simp only [Option.some.injEq] at h
+      subst h
+      have hlt : i < c.callers.length := (List.getElem?_eq_some_iff.mp hc).1
+      have hh := hone i q .locked hc trivial
+      subst hh
+      obtain ⟨hl, q', hq'⟩ := hpipe
+      have hq'' : c.up = [] ∧ c.down = [] := by
+        rcases hq' with ⟨_, hu, hdn⟩ | ⟨hc', _⟩
+        · exact ⟨hu, hdn⟩
+        · rw [hc] at hc'; simp at hc'
+      refine ⟨?_, some i, ?_, ?_⟩
+      · intro j q' r hj
+        rcases getElem?_set_eq' _ _ _ _ _ hj with ⟨_, he⟩ | ⟨_, he⟩
+        · simp at he
+        · exact hfin j q' r he
+      · intro j q' pc hj hh
+        rcases getElem?_set_eq' _ _ _ _ _ hj with ⟨rfl, _⟩ | ⟨_, he⟩
+        · rfl
+        · exact hone j q' pc he hh
+      · exact ⟨hl, q, Or.inr ⟨by simp [List.getElem?_set_self hlt], Or.inl ⟨by simp [hq''.1], hq''.2⟩⟩⟩
+    · -- written: read the reply, unlock
+      rename_i q hc
+      split at h
+      · simp at h
+      · rename_i r rs hdn
+        simp only [Option.some.injEq] at h
+        subst h
+        have hlt : i < c.callers.length := (List.getElem?_eq_some_iff.mp hc).1
+        have hh := hone i q .written hc trivial
+        subst hh
+        obtain ⟨hl, q', hq'⟩ := hpipe
+        have hr : c.up = [] ∧ r = f q ∧ rs = [] := by
+          rcases hq' with ⟨hc', _⟩ | ⟨hc', ⟨_, hd'⟩ | ⟨hu, hd'⟩⟩
+          · rw [hc] at hc'; simp at hc'
+          · simp [hdn] at hd'
+          · rw [hc] at hc'
+            simp only [Option.some.injEq, Prod.mk.injEq] at hc'
+            obtain ⟨rfl, _⟩ := hc'
+            rw [hdn] at hd'
+            simp only [List.cons.injEq] at hd'
+            exact ⟨hu, hd'.1, hd'.2⟩
+        obtain ⟨hu, rfl, rfl⟩ := hr
+        refine ⟨?_, none, ?_, ?_⟩
+        · intro j q' r hj
+          rcases getElem?_set_eq' _ _ _ _ _ hj with ⟨_, he⟩ | ⟨_, he⟩
+          · simp only [Prod.mk.injEq, Pc.finished.injEq] at he
+            obtain ⟨rfl, rfl⟩ := he; rfl
+          · exact hfin j q' r he
+        · intro j q' pc hj hh
+          rcases getElem?_set_eq' _ _ _ _ _ hj with ⟨_, he⟩ | ⟨hne, he⟩
+          · simp only [Prod.mk.injEq] at he
+            obtain ⟨_, rfl⟩ := he
+            exact absurd hh (by simp [Pc.holding])
+          · have := hone j q' pc he hh
+            simp only [Option.some.injEq] at this
+            exact absurd this hne
+        · exact ⟨rfl, hu, rfl⟩
+    · simp at h
+
+theorem clStep_requests (lk : Bool) (f : Bytes → Bytes) (c c' : Cl) (a : ClAct) (h : clStep lk f c a = some c') :
+    c'.callers.map (·.1) = c.callers.map (·.1) := by
+  cases a with
+  | server =>
+    simp only [clStep] at h
+    split at h
+    · simp at h
+    · simp only [Option.some.injEq] at h; subst h; rfl
+  | caller i =>
+    have key : ∀ (q : Bytes) (pc pc' : Pc), c.callers[i]? = some (q, pc) →
+        (c.callers.set i (q, pc')).map (·.1) = c.callers.map (·.1) := by
+      intro q pc pc' hc
+      apply List.ext_getElem?
+      intro j
+      by_cases hij : i = j
+      · subst hij
+        have hlt : i < c.callers.length := (List.getElem?_eq_some_iff.mp hc).1
+        simp only [List.map_set, List.getElem?_map, hc, Option.map_some]
+        rw [List.getElem?_set_self (by simpa using hlt)]
+      · simp [List.getElem?_set_ne hij]
+    simp only [clStep] at h
+    split at h
+    · simp at h
+    · rename_i q hc
+      split at h
+      · simp at h
+      · simp only [Option.some.injEq] at h; subst h; exact key q _ _ hc
+    · rename_i q hc
+      simp only [Option.some.injEq] at h; subst h; exact key q _ _ hc
+    · rename_i q hc
+      split at h
+      · simp at h
+      · simp only [Option.some.injEq] at h; subst h; exact key q _ _ hc
+    · simp at h
+
+/-- **replies are never attributed to another request** (client side): any number of goroutines
+calling `Send` on one kept connection, any interleaving with each other and with the server — every
+caller that returns holds the reply to *its own* request; the requests themselves are untouched. -/
+theorem c14_client_lock_pairs (f : Bytes → Bytes) (c : Cl)
+    (hfresh : c.lock = false ∧ c.up = [] ∧ c.down = [] ∧ ∀ (i : Nat) q pc, c.callers[i]? = some (q, pc) → pc = .start)
+    (sched : List ClAct) :
+    (∀ (i : Nat) q r, (clRun true f c sched).callers[i]? = some (q, .finished r) → r = f q) ∧
+    (clRun true f c sched).callers.map (·.1) = c.callers.map (·.1) := by
+  have h0 : c.Inv f := by
+    refine ⟨?_, none, ?_, hfresh.1, hfresh.2.1, hfresh.2.2.1⟩
+    · intro i q r hc; have := hfresh.2.2.2 i q _ hc; simp at this
+    · intro j q pc hc hh; have := hfresh.2.2.2 j q pc hc; subst this; simp [Pc.holding] at hh
+  suffices ∀ c₁ : Cl, c₁.Inv f → c₁.callers.map (·.1) = c.callers.map (·.1) →
+      (clRun true f c₁ sched).Inv f ∧ (clRun true f c₁ sched).callers.map (·.1) = c.callers.map (·.1) by
+    exact ⟨(this c h0 rfl).1.1, (this c h0 rfl).2⟩
+  induction sched with
+  | nil => intro c₁ h₁ h₂; exact ⟨h₁, h₂⟩
+  | cons a as ih =>
+    intro c₁ h₁ h₂
+    simp only [clRun]
+    split
+    · rename_i c₂ hs
+      exact ih c₂ (clStep_inv f c₁ c₂ a hs h₁) ((clStep_requests true f c₁ c₂ a hs).trans h₂)
+    · exact ih c₁ h₁ h₂
+
+/-- non-vacuity: three callers on one connection, one schedule under which all of them finish -/
+example :
+    (clRun true (fun b => b ++ [0]) { callers := [([1], .start), ([2], .start), ([3], .start)] }
+      [.caller 1, .caller 0, .caller 1, .server, .caller 1, .caller 0, .caller 0, .caller 2, .server,
+       .caller 0, .caller 2, .caller 2, .server, .caller 2]).callers
+      = [([1], .finished [1, 0]), ([2], .finished [2, 0]), ([3], .finished [3, 0])] := by decide
+
+/-- the lock is what makes it true: without it two callers can receive each other's reply -/
+theorem c14_client_without_lock_swaps :
+    ∃ sched : List ClAct,
+      (clRun false (fun b => b ++ [0]) { callers := [([1], .start), ([2], .start)] } sched).callers
+        = [([1], .finished [2, 0]), ([2], .finished [1, 0])] :=
+  ⟨[.caller 0, .caller 1, .caller 1, .caller 0, .server, .server, .caller 0, .caller 1], by decide⟩
+
+/-! ### non-vacuity of the server theorems: a fresh system and a schedule that serves everything -/
+
+example :
+    let y : Sys Nat Msg Body Reply :=
+      { svc := 0, slots := fun _ => {},
+        ws := [{ path := "C14Echo", todo := [[8, 10], [0xff], [8, 2]] }],
+        http := [{ todo := [(0, post [.setS [52, 50]]), (0, post [])] }, { todo := [(0, post [.setA 7])] }] }
+    y.Fresh ∧
+    ((run (concreteCfg .perRequest) y
+        [.http 1, .http 0, .ws 0, .http 1, .http 0, .http 0, .ws 0, .http 0, .ws 0]).http.map (·.outs))
+      = [[restRespond (concreteRest 0) 0 (post [.setS [52, 50]]), restRespond (concreteRest 0) 0 (post [])],
+         [restRespond (concreteRest 0) 0 (post [.setA 7])]] := by
+  refine ⟨⟨?_, ?_⟩, by decide⟩
+  · intro t ht; simp at ht; subst ht; exact ⟨rfl, rfl⟩
+  · intro t ht; simp at ht; rcases ht with rfl | rfl <;> exact ⟨rfl, rfl, rfl⟩
 
 end C14
